@@ -1,7 +1,7 @@
 (** C01 for diskdump / makedumpfile KDUMP: the reader model, run on the file
     that the spec encoder writes for an image, returns the image. *)
 From Coq Require Import NArith List Bool Lia Arith Sorted.
-From KdV Require Import Fmt.Codec Fmt.CodecProofs Fmt.PfnModel Fmt.PfnProofs Fmt.BitmapSpec
+From KdV Require Import Fmt.Codec Fmt.CodecProofs Fmt.PfnModel Fmt.PfnProofs Fmt.PfnBridge Fmt.BitmapSpec
      Fmt.ImageSpec Fmt.DiskdumpModel Fmt.DiskdumpSpec.
 Import ListNotations.
 Local Open Scope N_scope.
@@ -770,12 +770,19 @@ Section Roundtrip.
   (** ** the bitmap *)
   Lemma read_bitmap_ok :
     read_bitmap rd pgsz (dl_sub_blocks l) (bitmap_blocks l) fi (win_start l) (win_end l) (dl_max_mapnr l) =
-    (dl_max_mapnr l, pm_regions the_map).
+    Ok (dl_max_mapnr l, pm_regions the_map).
   Proof.
     unfold read_bitmap. pose proof (wf_cover _ _ Hwf) as Hc. fold pgsz in Hc.
     destruct (wf_bmp _ _ Hwf) as [Hb1 Hb2]. pose proof pgsz_bounds as Hpb.
     assert (Hbm : forall off : N, off = bm2_off -> rd fi off bmbytes = bm2).
     { intros off Hoff. rewrite Hoff, rd_eq by reflexivity. apply rd_bm2. }
+    (* the word-level scanner on the packed bitmap gives the runs of the bit walk *)
+    assert (Hscan : forall al s e off esz, e <= bmbytes * 8 ->
+              regions_of false al bm2 s e off esz = Ok (regions_from_bitmap false bm2 s e off esz)).
+    { intros al s e off esz He. apply regions_of_spec; [apply bits_to_bytes_ok |].
+      rewrite len_bm2. assert ((e + 7) / 8 < bmbytes + 1) by (apply N.div_lt_upper_bound; lia). lia. }
+    assert (Hlim_le : lim <= bmbytes * 8) by (unfold lim; destruct (win_end l <? bmbytes * 8) eqn:E;
+                                               [apply N.ltb_lt in E; lia | lia]).
     unfold bitmap_blocks, bm2_off in Hb2, Hbm |- *. destruct (dl_two_bitmaps l) eqn:Htwo.
     - (* makedumpfile: two bitmaps, the second one counts *)
       replace (2 * dl_bmp_blocks l * pgsz * 8 / 2) with (bmbytes * 8)
@@ -784,16 +791,16 @@ Section Roundtrip.
       replace (2 * dl_bmp_blocks l / 2) with (dl_bmp_blocks l)
         by (apply N.div_unique_exact; lia).
       fold bmbytes. destruct (N.ltb_spec (bmbytes * 8) (dl_max_mapnr l)) as [Hbad |]; [unfold bmbytes in Hbad; lia |].
-      rewrite Hbm by lia. cbn [the_map pm_regions]. fold lim.
-      do 2 f_equal. unfold descoff, bitmap_blocks. rewrite Htwo. lia.
+      rewrite Hbm by lia. cbn [the_map pm_regions]. fold lim. rewrite Hscan by exact Hlim_le.
+      do 3 f_equal. unfold descoff, bitmap_blocks. rewrite Htwo. lia.
     - (* diskdump: a single bitmap *)
       pose proof (wf_single _ _ Hwf Htwo) as Hs. fold pgsz in Hs.
       destruct (N.leb_spec (dl_max_mapnr l) (dl_bmp_blocks l * pgsz * 8 / 2)) as [Hbad | _].
       + exfalso. assert (dl_bmp_blocks l * pgsz * 8 / 2 = 4 * dl_bmp_blocks l * pgsz)
           by (symmetry; apply N.div_unique_exact; lia). lia.
       + fold bmbytes. destruct (N.ltb_spec (bmbytes * 8) (dl_max_mapnr l)) as [Hbad |]; [unfold bmbytes in Hbad; lia |].
-        rewrite Hbm by lia. cbn [the_map pm_regions]. fold lim.
-        do 2 f_equal. unfold descoff, bitmap_blocks. rewrite Htwo. lia.
+        rewrite Hbm by lia. cbn [the_map pm_regions]. fold lim. rewrite Hscan by exact Hlim_le.
+        do 3 f_equal. unfold descoff, bitmap_blocks. rewrite Htwo. lia.
   Qed.
 
   (** ** [do_header_32/64] on this file *)
@@ -1146,7 +1153,8 @@ Section FileSet.
       destruct (find_pfn_file_map (sort_maps set_maps) pfn) as [m |] eqn:E; [| reflexivity].
       destruct (hit_is_a_file _ _ E) as [j [w [Hj ->]]].
       assert (Hin : In w ws) by (eapply nth_error_In; eassumption).
-      rewrite (pdpos_none decompress _ _ _ img (Hwf _ Hin) Hst (Hsize _ Hin) pfn Hnone).
+      rewrite (pdpos_none decompress rd (N.of_nat j) (with_window l w) pages img (Hwf _ Hin) Hst (Hsize _ Hin)
+                 (fun off n => rd_file j w off n Hj) pfn Hnone).
       destruct (_ <=? pfn); reflexivity.
     - assert (Hnone : match nth_error pages (N.to_nat pfn) with Some (Some _) => False | _ => True end).
       { pose proof (Forall2_nth_error _ _ _ Hst (N.to_nat pfn)) as R. rewrite Hc in R.
@@ -1154,7 +1162,8 @@ Section FileSet.
       destruct (find_pfn_file_map (sort_maps set_maps) pfn) as [m |] eqn:E; [| reflexivity].
       destruct (hit_is_a_file _ _ E) as [j [w [Hj ->]]].
       assert (Hin : In w ws) by (eapply nth_error_In; eassumption).
-      rewrite (pdpos_none decompress _ _ _ img (Hwf _ Hin) Hst (Hsize _ Hin) pfn Hnone).
+      rewrite (pdpos_none decompress rd (N.of_nat j) (with_window l w) pages img (Hwf _ Hin) Hst (Hsize _ Hin)
+                 (fun off n => rd_file j w off n Hj) pfn Hnone).
       destruct (_ <=? pfn); reflexivity.
   Qed.
 End FileSet.
@@ -1220,10 +1229,10 @@ Section Single.
     - destruct (page_in_window decompress rd 0 l pages img Hwf Hst Hsize rd_single pfn c (conj Hs He) Hc)
         as [pos [Hpos Hpage]].
       rewrite Hpos. exact Hpage.
-    - rewrite (pdpos_none decompress 0 l pages img Hwf Hst Hsize pfn); [reflexivity |].
+    - rewrite (pdpos_none decompress rd 0 l pages img Hwf Hst Hsize rd_single pfn); [reflexivity |].
       pose proof (Forall2_nth_error _ _ _ Hst (N.to_nat pfn)) as R. rewrite Hc in R.
       destruct (nth_error pages (N.to_nat pfn)) as [[p |] |]; [contradiction | exact I | exact I].
-    - rewrite (pdpos_none decompress 0 l pages img Hwf Hst Hsize pfn); [reflexivity |].
+    - rewrite (pdpos_none decompress rd 0 l pages img Hwf Hst Hsize rd_single pfn); [reflexivity |].
       pose proof (Forall2_nth_error _ _ _ Hst (N.to_nat pfn)) as R. rewrite Hc in R.
       destruct (nth_error pages (N.to_nat pfn)) as [[p |] |]; [contradiction | contradiction | exact I].
   Qed.
